@@ -182,7 +182,9 @@ def gen_plan(seed, cfg):
         if b.get("bad") and rng.random() < 0.7:
             # an identical rejected request again, straight away
             history.append(_concretise(rng, b))
-    if rng.random() < 0.25:
+    if rng.random() < 0.35:
+        # the process's first use of the library is the compilation of a C kernel; later that
+        # kernel is dropped and collected while requests keep coming
         tms = [b for b in base if b["kind"] == "tm"]
         if tms:
             b = dict(rng.choice(tms))
@@ -191,6 +193,8 @@ def gen_plan(seed, cfg):
                 b["key"] = f"tm|{b['prob']}|cffi"
                 base.append(b)
             history.insert(0, _concretise(rng, b))
+            at = rng.randint(1, max(1, len(history) // 2))
+            history[at:at] = [{"kind": "cache_clear"}, {"kind": "gc"}]
     return {"engine": "P", "run_seed": seed, "hashseed": seed % 8,
             "child_hashseed": rng.randrange(1, 2 ** 32), "base": base, "history": history}
 
